@@ -770,7 +770,7 @@ def case_precondition(ctx, rng, fl, kind, digits, feats):
     eqs = []
     for j, x in enumerate(elim):
         others = free + elim[:j]
-        L = gen_poly(rng, others, kind if kind != "near" else "dec", max_deg=1, nterms=rng.randint(1, 2))
+        L = gen_poly(rng, others, kind, max_deg=1, nterms=rng.randint(1, 2))
         c = gen_coef(rng, "int") if rng.random() < 0.7 else "0"
         eqs.append((x, L, c))
     ineqs = []
@@ -857,7 +857,10 @@ def judge_precondition(ctx, rng, fl, digits, eqs, ineqs, free, history):
         if eqs:
             # substitution creates monomials the originals do not have: fall back to the generic mass bound
             slack = max(slack, h * (1 + sum(abs(v[f]) for f in fl)) ** 3)
-        res = [out_truth(c, v, h, slack) for c in got_conds]
+        # an output equality comes from one original equality alone (equalities are never rewritten through the others):
+        # its difference may be off by the rounding of its own, linear, terms only
+        slack_eq = h * (1 + sum(abs(v[f]) for f in fl))
+        res = [out_truth(c, v, h, slack_eq if c[0] == "=" else slack) for c in got_conds]
         if any(r is False for r in res):
             return False
         if all(r is True for r in res):
@@ -875,6 +878,12 @@ def judge_precondition(ctx, rng, fl, digits, eqs, ineqs, free, history):
         for x, L, c in eqs:  # onto the manifold, in elimination order
             v[x] = Fraction(c) - ev(L, v)
         pts.append((dict(v), "on-manifold"))
+        if eqs and _ < 4:
+            # far from the origin, where a coefficient that lost decimals moves an equality visibly
+            vb = {f: rng.choice(GRID) * 10000 for f in LIFTED}
+            for x, L, c in eqs:
+                vb[x] = Fraction(c) - ev(L, vb)
+            pts.append((vb, "on-manifold-far"))
         if eqs:
             x = rng.choice(eqs)[0]
             v2 = dict(v)
